@@ -24,7 +24,14 @@ template<class S,class Tg> void c16_left_lemma(hx::Rec<S>& R){ COMMON
   hx::eqm(R,"(gm)+tau=g(m+tau)", Tg::template M<S>(gm.rplus(tau)), (Tg::template M<S>(g)*Tg::template M<S>(m.rplus(tau))).eval());
   hx::eqm(R,"between", gm.between(gX).coeffs(), m.between(X).coeffs());
 }
+// two points on a commutative group: every routine returns the midpoint (one exact step, then the residual is zero)
+#define TWO(FN,K) template<class S,class Tg> void c16_two_##K(hx::Rec<S>& R){ COMMON R.note("noraise","1"); G X=Tg::make(R,"a",0), Y=Tg::make(R,"b",1); std::vector<G> v{X,Y}; G r=manif::FN(v, S(manif::Constants<S>::eps), 6); \
+  T half(typename T::DataType(Y.rminus(X).coeffs()*S(0.5))); G mid=X.rplus(half); R.le("midpoint_within_stopping_tolerance", (r.coeffs()-mid.coeffs()).squaredNorm(), S(manif::Constants<S>::eps)); }
+ROUTINES(TWO)
 #define REGK(FN) ENTRY_T(FN##0, TAG) ENTRY_T(FN##1, TAG) ENTRY_T(FN##2, TAG) ENTRY_T(FN##3, TAG)
 REGK(c16_empty_) REGK(c16_single_) REGK(c16_identical_)
+#ifdef COMMUTATIVE
+REGK(c16_two_)
+#endif
 ENTRY_T(c16_left_lemma, TAG)
 HX_MAIN
